@@ -41,7 +41,7 @@ def case(ctx, idx, res):
     r = rng_for(ctx.seed, 'c02', idx)
     drv = ctx.drv(FLAVOUR)
     thorough = ctx.tier == 'thorough'
-    xml, info = gen_xml.gen_tree(r, size=r.choice([8, 15, 25, 40] + ([80, 150] if thorough else [])), ns=r.random() < 0.7, comments=True)
+    xml, info = gen_xml.gen_doc(r, size=r.choice([8, 15, 25, 40] + ([80, 150] if thorough else [])), ns=r.random() < 0.7, comments=True)
     try:
         doc = refxml.parse(xml)
     except refxml.ParseError as e:
